@@ -12,7 +12,7 @@ use debruijn::kmer::{Kmer16, Kmer6, Kmer8};
 use debruijn::Kmer;
 use simcore::model::{check_against_ref_index, first_diff, kmer_bases, probes, transcript};
 use simcore::monitor::Mon;
-use simcore::pipe::{base_graph_counts, base_graph_for};
+use simcore::pipe::base_graph_for;
 use simcore::rec::digest_str;
 use simcore::rng::Rng;
 use simcore::spec::{gen_graph_spec, GraphSpec};
@@ -84,7 +84,7 @@ fn small_probes<K: Kmer, D: std::fmt::Debug>(g: &debruijn::graph::DebruijnGraph<
 }
 
 fn c18<K: Kmer + Send + Sync>(spec: &GraphSpec, threads: usize, gamma: f64) {
-    let g = base_graph_counts::<K>(&spec.reads, spec.stranded, spec.min_count).finish_serial();
+    let g = base_graph_for::<K>(spec).finish_serial();
     let mon = Mon::new(&g);
     let n = mon.total_kmers();
     if n == 0 {
